@@ -31,7 +31,10 @@ code, source / destination ids on both paths, equal to the field vector; as_ipsc
 from mc import env  # noqa: F401  (must be first)
 from mc import par, spaces
 from mc.report import Report, Acc, exc_sig
-from mc.hist import scramble
+from mc.hist import scramble, observe as _observe
+import contextlib
+import io
+_DEVNULL = io.StringIO()
 from mc.oracle import gf2
 
 import itertools
@@ -463,6 +466,15 @@ def check_frame(acc, fv, frame, payload_cc, sample=False, captured=False):
             acc.violation(f"{path}:reserialise_exception:{exc_sig(e)}", case, repr(e))
             continue
         if out == frame:
+            # looking at the decoded burst (repr, str, ==, len, hash) between two serialisations must not change it
+            try:
+                with contextlib.redirect_stdout(_DEVNULL):
+                    _observe(b, light=True)
+                    _observe(b.hytera_ipsc, light=True)
+                if b.hytera_ipsc.as_ipsc_bytes() != frame:
+                    acc.violation(f"{path}:reserialised_frame_differs_after_the_burst_was_looked_at", case)
+            except Exception as e:  # noqa: BLE001
+                acc.violation(f"{path}:exception_after_looking_at_burst:{exc_sig(e)}", case, repr(e))
             continue
         if not isinstance(out, bytes) or len(out) != 72:
             acc.violation(f"{path}:reserialised_length_not_72", {**case, "got": out.hex() if isinstance(out, bytes) else repr(out)}, f"{len(out) if hasattr(out, '__len__') else '?'} bytes")
